@@ -14,9 +14,10 @@
      pm_proc PS P := PS -> msg -> PS * option P * option P       msg_proc (may keep state, e.g. counters)
      pm_state                    PMStart (created, not started) | PMRun (suspended at `yield msg`)
      pm_init p s0                plan_mutator(p, msg_proc) just created
-     pm_lresume proc fuel        logged coalgebra: pm_state -> input -> outcome pm_state * list call
+     pm_lresume proc fixed fuel  (fixed : bool = with/without the C21-a repair, see below)
+                                 logged coalgebra: pm_state -> input -> outcome pm_state * list call
                                  (calls: Call id input = plan_stack generator `id` was resumed with it)
-     pm_resume proc fuel         fst of it
+     pm_resume proc fixed fuel   fst of it
      id_proc                     the processor returning (None, None)
      mm_state / mm_init / mm_lresume mproc fuel / mm_resume      msg_mutator, mproc : msg -> option msg
    [fuel] bounds the number of `continue` iterations of the while loop between two yields (and the
@@ -75,6 +76,9 @@ Section Mutators.
   Context {PS : Type}.
   Definition pm_proc := PS -> msg -> PS * option P * option P.
   Variable proc : pm_proc.
+  (* [fixed = true]: the code with fixes/C21-a.diff applied (the throw path's StopIteration branch clears
+     `exception` and resets `ret`); [fixed = false]: the code before that repair *)
+  Variable fixed : bool.
 
   Record pm_run := mkPM {
     msgs_seen : list msg;
@@ -100,8 +104,9 @@ Section Mutators.
     | IOut (o : outcome pm_state) (calls : list call).
 
   (* lines 97-125 / 142-170: the StopIteration branch shared by both paths.
-     [st] already has the exhausted generator popped; [rv] is the local `ret` at that point. *)
-  Definition stop_iteration (st : pm_run) (gid : nat) (v : val) (rv : val) (calls : list call) : iter_res :=
+     [st] already has the exhausted generator popped; [rv] is the local `ret` at that point and
+     [exc'] the value of `exception` after the branch. *)
+  Definition stop_iteration (st : pm_run) (exc' : option exn) (gid : nat) (v : val) (rv : val) (calls : list call) : iter_res :=
     let ret_value' := if Nat.eqb gid 0 then v else ret_value st in
     let '(ret', trc) :=
       match assoc_get gid (tail_result_cache st) with
@@ -121,7 +126,7 @@ Section Mutators.
           end
       | None => (plan_stack st, rs, tail_cache st, trc)
       end in
-    let st' := mkPM (msgs_seen st) ps rs' tc trc' (exception st) ret' ret_value' (next_id st) (pstate st) in
+    let st' := mkPM (msgs_seen st) ps rs' tc trc' exc' ret' ret_value' (next_id st) (pstate st) in
     match ps with
     | [] => IOut (Returned ret_value') calls
     | _ => ICont st' calls
@@ -169,7 +174,9 @@ Section Mutators.
         | Some ex =>
             let calls := [Call gid (Throw ex)] in
             match ent_resume p (Throw ex) with
-            | Returned v => stop_iteration (pop_top st rest (result_stack st) (ret st)) gid v (ret st) calls
+            | Returned v =>
+                if fixed then stop_iteration (pop_top st rest (result_stack st) VNone) None gid v VNone calls
+                else stop_iteration (pop_top st rest (result_stack st) (ret st)) (Some ex) gid v (ret st) calls
             | Raised e =>
                 if is_Exception e then
                   match rest with
@@ -187,7 +194,7 @@ Section Mutators.
             | rv :: rs =>
                 let calls := [Call gid (Send rv)] in
                 match ent_resume p (Send rv) with
-                | Returned v => stop_iteration (pop_top st rest rs rv) gid v rv calls
+                | Returned v => stop_iteration (pop_top st rest rs rv) None gid v rv calls
                 | Raised e =>
                     if is_Exception e then
                       let '(ps, tc) :=
